@@ -55,7 +55,7 @@ static std::string gname(const GlobalValue* g) {
     // keep external names recognisable; prefix defined ones
     if (!cast<Function>(g)->isDeclaration() && !stubs.count(g->getName().str())) n = prefix + "F_" + n; else n = "X_" + n;
   } else n = prefix + "G_" + n;
-  if (n.size() > 200) { n = n.substr(0, 180) + "_h" + std::to_string(std::hash<std::string>()(g->getName().str()) % 1000000); }
+  if (n.size() > 600) { n = n.substr(0, 580) + "_h" + std::to_string(std::hash<std::string>()(g->getName().str()) % 1000000); }
   return gnames[g] = n;
 }
 
